@@ -21,11 +21,17 @@ namespace pika::detail {
     ///////////////////////////////////////////////////////////////////////////
     void intrusive_ptr_add_ref(stop_state* p)
     {
+#if defined(PIKA_VERIF)
+        PIKA_VERIF_POINT(1420, p);
+#endif
         p->state_.fetch_add(stop_state::token_ref_increment, std::memory_order_relaxed);
     }
 
     void intrusive_ptr_release(stop_state* p)
     {
+#if defined(PIKA_VERIF)
+        PIKA_VERIF_POINT(1421, p);
+#endif
         std::uint64_t old_state =
             p->state_.fetch_sub(stop_state::token_ref_increment, std::memory_order_acq_rel);
 
@@ -60,9 +66,15 @@ namespace pika::detail {
     ///////////////////////////////////////////////////////////////////////////
     void stop_state::lock() noexcept
     {
+#if defined(PIKA_VERIF)
+        PIKA_VERIF_POINT(1401, this);
+#endif
         auto old_state = state_.load(std::memory_order_relaxed);
 
         auto expected = old_state & ~stop_state::locked_flag;
+#if defined(PIKA_VERIF)
+        PIKA_VERIF_POINT(1402, this);
+#endif
         while (!state_.compare_exchange_weak(expected, old_state | stop_state::locked_flag,
             std::memory_order_acquire, std::memory_order_relaxed))
         {
@@ -71,21 +83,33 @@ namespace pika::detail {
             for (std::size_t k = 0; is_locked(old_state); ++k)
             {
                 pika::execution::this_thread::detail::yield_k(k, "stop_state::lock");
+#if defined(PIKA_VERIF)
+                PIKA_VERIF_POINT(1403, this);
+#endif
                 old_state = state_.load(std::memory_order_relaxed);
             }
 
             expected = old_state & ~stop_state::locked_flag;
+#if defined(PIKA_VERIF)
+            PIKA_VERIF_POINT(1402, this);
+#endif
         }
     }
 
     ///////////////////////////////////////////////////////////////////////////
     bool stop_state::lock_and_request_stop() noexcept
     {
+#if defined(PIKA_VERIF)
+        PIKA_VERIF_POINT(1404, this);
+#endif
         std::uint64_t old_state = state_.load(std::memory_order_acquire);
 
         if (stop_requested(old_state)) return false;
 
         auto expected = old_state & ~stop_state::locked_flag;
+#if defined(PIKA_VERIF)
+        PIKA_VERIF_POINT(1405, this);
+#endif
         while (!state_.compare_exchange_weak(expected,
             old_state | stop_state::stop_requested_flag | stop_state::locked_flag,
             std::memory_order_acquire, std::memory_order_relaxed))
@@ -96,12 +120,18 @@ namespace pika::detail {
             {
                 pika::execution::this_thread::detail::yield_k(
                     k, "stop_state::lock_and_request_stop");
+#if defined(PIKA_VERIF)
+                PIKA_VERIF_POINT(1406, this);
+#endif
                 old_state = state_.load(std::memory_order_acquire);
 
                 if (stop_requested(old_state)) return false;
             }
 
             expected = old_state & ~stop_state::locked_flag;
+#if defined(PIKA_VERIF)
+            PIKA_VERIF_POINT(1405, this);
+#endif
         }
 
         return true;
@@ -110,12 +140,21 @@ namespace pika::detail {
     ///////////////////////////////////////////////////////////////////////////
     bool stop_state::lock_if_not_stopped(stop_callback_base* cb) noexcept
     {
+#if defined(PIKA_VERIF)
+        PIKA_VERIF_POINT(1407, this);
+#endif
         std::uint64_t old_state = state_.load(std::memory_order_acquire);
 
         if (stop_requested(old_state))
         {
+#if defined(PIKA_VERIF)
+            PIKA_VERIF_POINT(1412, this);
+#endif
             cb->execute();
 
+#if defined(PIKA_VERIF)
+            PIKA_VERIF_POINT(1410, this);
+#endif
             cb->callback_finished_executing_.store(true, std::memory_order_release);
 
             return false;
@@ -123,6 +162,9 @@ namespace pika::detail {
         else if (!stop_possible(old_state)) { return false; }
 
         auto expected = old_state & ~stop_state::locked_flag;
+#if defined(PIKA_VERIF)
+        PIKA_VERIF_POINT(1408, this);
+#endif
         while (!state_.compare_exchange_weak(expected, old_state | stop_state::locked_flag,
             std::memory_order_acquire, std::memory_order_relaxed))
         {
@@ -131,12 +173,21 @@ namespace pika::detail {
             for (std::size_t k = 0; is_locked(old_state); ++k)
             {
                 pika::execution::this_thread::detail::yield_k(k, "stop_state::add_callback");
+#if defined(PIKA_VERIF)
+                PIKA_VERIF_POINT(1409, this);
+#endif
                 old_state = state_.load(std::memory_order_acquire);
 
                 if (stop_requested(old_state))
                 {
+#if defined(PIKA_VERIF)
+                    PIKA_VERIF_POINT(1412, this);
+#endif
                     cb->execute();
 
+#if defined(PIKA_VERIF)
+                    PIKA_VERIF_POINT(1410, this);
+#endif
                     cb->callback_finished_executing_.store(true, std::memory_order_release);
 
                     return false;
@@ -145,6 +196,9 @@ namespace pika::detail {
             }
 
             expected = old_state & ~stop_state::locked_flag;
+#if defined(PIKA_VERIF)
+            PIKA_VERIF_POINT(1408, this);
+#endif
         }
 
         return true;
@@ -189,6 +243,9 @@ namespace pika::detail {
 
         // Callback has either already executed or is executing concurrently
         // on another thread.
+#if defined(PIKA_VERIF)
+        PIKA_VERIF_POINT(1414, this);
+#endif
         if (signalling_thread_ == pika::threads::detail::get_self_id())
         {
             // Callback executed on this thread or is still currently executing
@@ -206,7 +263,12 @@ namespace pika::detail {
             // Callback is currently executing on another thread,
             // block until it finishes executing.
             pika::util::yield_while(
-                [&]() { return !cb->callback_finished_executing_.load(std::memory_order_relaxed); },
+                [&]() {
+#if defined(PIKA_VERIF)
+                    PIKA_VERIF_POINT(1415, this);
+#endif
+                    return !cb->callback_finished_executing_.load(std::memory_order_relaxed);
+                },
                 "stop_state::remove_callback");
         }
     }
@@ -258,10 +320,16 @@ namespace pika::detail {
             detail::unlock_guard<stop_state> ul(*this);
 
             bool is_removed = false;
+#if defined(PIKA_VERIF)
+            PIKA_VERIF_POINT(1413, this);
+#endif
             cb->is_removed_ = &is_removed;
 
             cb->execute();
 
+#if defined(PIKA_VERIF)
+            PIKA_VERIF_POINT(1416, this);
+#endif
             if (!is_removed)
             {
                 cb->is_removed_ = nullptr;
